@@ -17,6 +17,7 @@ LEVEL_TEXT = (
     "constraint and increment are the recomputed ones; the exit status is truthful; the displacement from the mean lies in "
     "range(L L^T J(x_prev)^T) (first-order optimality up to the last increment); affine constraints give the Gaussian conditional mean "
     "after one iteration; used as linearisation point the routine makes one dense filter update exact for affine constraints."
+    ' Covariance factors include row-scaled, badly conditioned ones (standard deviations down to 1e-7 next to O(1)) with sparse constraint rows; references are in square-root form with tolerances proportional to eps x condition number.'
 )
 LEVEL_NOTE = "Trusted: NumPy pinv/lstsq reference; the specification admits many valid outputs for nonlinear constraints, so validity predicates are checked rather than one expected answer."
 RULE = (
